@@ -5623,6 +5623,27 @@ impl PeerConnectionInner {
             sctp.close();
         }
 
+        // Every data channel of this connection ends here. The SCTP runner's
+        // cleanup guard does the same for an association that exists, but a
+        // channel created before SCTP was started never meets it and its
+        // `recv()` would wait for ever. The state swap keeps Close at most once.
+        let channels: Vec<_> = self
+            .data_channels
+            .lock()
+            .iter()
+            .filter_map(|weak_dc| weak_dc.upgrade())
+            .collect();
+        for dc in channels {
+            let old_state = dc.state.swap(
+                crate::transports::datachannel::DataChannelState::Closed as usize,
+                Ordering::SeqCst,
+            );
+            if old_state != crate::transports::datachannel::DataChannelState::Closed as usize {
+                dc.send_event(crate::transports::datachannel::DataChannelEvent::Close);
+                dc.close_channel();
+            }
+        }
+
         if let Some(dtls) = self.dtls_transport.lock().as_ref() {
             dtls.close();
         }
